@@ -225,9 +225,10 @@ def run(ctx):
                     slot_problem = slot_problem or ('argument %d of the message is read from slot %s of the closure (signature characters %s)' % (
                         j, ix, ', '.join('#%d %s' % (k, 'is a type code' if v else 'is NOT a type code (digit / ?)') for k, v in sorted(iters.items())) or 'all type codes'), p)
             mem = re.findall(r'ARGS_\[[^\[\]]*\]\[(C\d+_|\'\w\')\]', t)
+            code_chars = sorted(k for k, v in iters.items() if v)      # positions of the signature characters that are type codes on this path
             for mb in mem:
-                if mb.startswith('C') and it is not None and mb != 'C%d_' % it:
-                    slot_problem = slot_problem or ('argument %d is read through the union member named by signature character %s, but it is decoded for character #%d' % (j, mb, it), p)
+                if mb.startswith('C') and j < len(code_chars) and mb != 'C%d_' % code_chars[j]:
+                    slot_problem = slot_problem or ('argument %d is read through the union member named by signature character %s, but the %d. type code of the signature is character #%d' % (j, mb, j + 1, code_chars[j]), p)
         n_codes = sum(1 for v in iters.values() if v)
         if iters and len(apps) != n_codes and not any(e.kind == 'raise' for e in p.events):
             slot_problem = slot_problem or ('%d signature character(s) are type codes but %d argument(s) are reported' % (n_codes, len(apps)), p)
@@ -324,7 +325,8 @@ def run(ctx):
             if len(apps) != 1:
                 problems.setdefault('one-append', 'code %s appends %d arguments in one iteration on path %s' % (c, len(apps), p.describe()[:200]))
             for ev in apps:
-                t = canon(norm(ev.args[0]))
+                from ..sim import deep_norm
+                t = canon(deep_norm(ev.args[0]))        # locals that hold a list built on this path are shown as that list
                 t_ = re.sub(r'<elem0 of (range\([^<>]*\))>', 'IDX_', t)
                 try:
                     e = ast.parse(t_, mode='eval').body
@@ -385,6 +387,15 @@ def run(ctx):
                 if ctor == 'Array':
                     x = e.args[0] if e.args else None
                     elt = rng = idx = None
+                    if isinstance(x, ast.List):
+                        if not x.elts:
+                            continue   # zero-element iteration of the inner loop; the one-element path carries the obligation
+                        t2 = norm(x.elts[0])
+                        rr = [ev2 for ev2 in p.events if ev2.kind == 'loop-iter' and ev2.value is not None and norm(ev2.value).startswith('range(')]
+                        if 'IDX_' in t2 and rr:
+                            rng = canon(norm(rr[-1].value))
+                            idx = 'IDX_'
+                            elt = t2
                     if isinstance(x, ast.ListComp) and len(x.generators) == 1 and not x.generators[0].ifs and isinstance(x.generators[0].target, ast.Name):
                         idx = x.generators[0].target.id
                         elt = norm(x.elt)
